@@ -259,7 +259,8 @@ theorem C01.join_accepted_nonvacuous :
 theorem C01.receive_flush_facts :
     receiveFlushGuard = "head == 0" ∧
     receiveFlushLoop = ⟨"for", "len(w.receives) > 0 && !slices.Contains(w.receives[0], nil)", "", false, false, false,
-      ["pck := joinAccepted(w.receives[0])", "w.receives = w.receives[1:]", "w.inbounds.Handle(pck)", "w.in <- pck"]⟩ ∧
+      ["pck := joinAccepted(w.receives[0])", "w.receives = w.receives[1:]", "w.writes = w.writes[1:]",
+       "w.inbounds.Handle(pck)", "w.in <- pck"]⟩ ∧
     receiveFlushPop = ⟨0, 1, false, []⟩ := by
   decide
 
@@ -287,11 +288,11 @@ def C01.writeCell (elseB : List String) (refused : Bool) : Option Cell :=
 theorem C01.write_facts :
     writeGuards = [("w.done", "return 0"), ("len(w.readers) == 0", "return 0")] ∧
     writeLoop = ⟨"range", "w.readers", "i,r", false, false, false,
-      ["if r.write(New(pck.Payload()), w, w.links[i])", "  count++", "else", "  receives[i] = refused"]⟩ ∧
-    writeAccepted = "r.write(New(pck.Payload()), w, w.links[i])" ∧
+      ["if r.write(New(pck.Payload()), w, w.links[i], w.written)", "  count++", "else", "  receives[i] = refused"]⟩ ∧
+    writeAccepted = "r.write(New(pck.Payload()), w, w.links[i], w.written)" ∧
     writeThen = ["count++"] ∧ writeElse = ["receives[i] = refused"] ∧
     writeAppendGuard = ("count", ">", 0) ∧
-    writeAppendBody = ["w.receives = append(w.receives, receives)"] := by
+    writeAppendBody = ["w.receives = append(w.receives, receives)", "w.writes = append(w.writes, w.written)", "w.written++"] := by
   decide
 
 /-- `Write` as the facts read: every refused reader's cell is what the else-branch assigns, the row is appended
@@ -328,12 +329,12 @@ def C01.rangeVisits {α : Type} (l : Loop) (xs : List α) : Option (List α) :=
 
 theorem C01.close_facts :
     closeHeads = ["w.mu.Lock()", "defer w.mu.Unlock()", "if w.done", "pck := New(ErrDroppedPacket)", "for range w.receives",
-      "close(w.in)", "w.done = true", "w.readers = nil", "w.links = nil", "w.receives = nil", "w.inbounds = nil", "w.outbounds = nil"] ∧
+      "close(w.in)", "w.done = true", "w.readers = nil", "w.links = nil", "w.receives = nil", "w.writes = nil", "w.inbounds = nil", "w.outbounds = nil"] ∧
     closeLoop = ⟨"range", "w.receives", "", false, false, false, ["w.inbounds.Handle(pck)", "w.in <- pck"]⟩ ∧
     readerCloseHeads = ["r.mu.Lock()", "defer r.mu.Unlock()", "if r.done", "pck := New(ErrDroppedPacket)",
       "for _, req := range r.writers", "close(r.in)", "r.done = true", "r.writers = nil", "r.inbounds = nil", "r.outbounds = nil"] ∧
     readerCloseLoop = ⟨"range", "r.writers", "_,req", false, false, false,
-      ["r.outbounds.Handle(pck)", "go req.writer.receive(pck, r, req.link)"]⟩ := by
+      ["r.outbounds.Handle(pck)", "go req.writer.receive(pck, r, req.link, req.write)"]⟩ := by
   decide
 
 /-- `(*Writer).Close` pushes one dropped packet per pending row, `(*Reader).Close` spawns one
@@ -396,18 +397,20 @@ theorem C01.pump_fifo_as_modelled {α : Type} (p : Uniflow.Pump.P α) (a : α) (
 theorem C01.reader_queue_facts :
     readerWriteGuards = [("r.done", "return false")] ∧
     readerWriteHeads = ["r.mu.Lock()", "defer r.mu.Unlock()", "if r.done",
-      "r.writers = append(r.writers, request{writer: writer, link: link})", "r.inbounds.Handle(pck)", "r.in <- pck", "return true"] ∧
+      "r.writers = append(r.writers, request{writer: writer, link: link, write: write})", "r.inbounds.Handle(pck)", "r.in <- pck", "return true"] ∧
     readerReceiveGuards = [("len(r.writers) == 0", "r.mu.Unlock(); return false")] ∧
     readerReceiveHeads = ["r.mu.Lock()", "if len(r.writers) == 0", "r.outbounds.Handle(pck)", "req := r.writers[0]",
-      "r.writers = r.writers[1:]", "r.mu.Unlock()", "return req.writer.receive(pck, r, req.link)"] ∧
+      "r.writers = r.writers[1:]", "r.mu.Unlock()", "return req.writer.receive(pck, r, req.link, req.write)"] ∧
     readerReceivePop = ⟨0, 1, false, []⟩ := by
   decide
 
 /-- `Reader.Receive` answers the request `r.writers[i]` and keeps `r.writers[lo:]` with the extracted `i`, `lo`:
 the model's `answer` step (oldest request first, its link generation passed to `receive`). -/
-theorem C01.reader_queue_as_modelled (m : W) (r : RId) (a : Ans) (g : Nat) (rest : List Nat)
+theorem C01.reader_queue_as_modelled (m : W) (r : RId) (a : Ans) (g : Nat × Nat) (rest : List (Nat × Nat))
     (h : C01.popAt readerReceivePop.index readerReceivePop.low (m.pend r) = some (g, rest)) :
-    step m (.answer r a) = receive { m with pend := fun x => if x = r then rest else m.pend x } a r g := by
+    step m (.answer r a) = receive { m with pend := fun x => if x = r then rest else m.pend x } a r g.1 g.2 ∧
+    (step m (.pop r a)).1 = { m with pend := fun x => if x = r then rest else m.pend x,
+                                     flight := fun x => if x = r then m.flight r ++ [(a, g.1, g.2)] else m.flight x } := by
   have hi : readerReceivePop.index = 0 ∧ readerReceivePop.low = 1 := by decide
   rw [hi.1, hi.2] at h
   cases hp : m.pend r with
@@ -415,6 +418,15 @@ theorem C01.reader_queue_as_modelled (m : W) (r : RId) (a : Ans) (g : Nat) (rest
   | cons x xs =>
     simp [C01.popAt, hp] at h
     simp [step, stepWith, hp, h.1, h.2, receive]
+
+/-- The window: `Reader.Receive` releases `r.mu` BEFORE it calls `(*Writer).receive` – between the two the reader's
+other methods (in particular `Close`) can run, which is why the model has the answer as two steps (`pop`,
+`deliver`) besides the atomic `answer`; the response carries the link generation and the number of its write. -/
+theorem C01.reader_receive_window :
+    readerReceiveHeads.idxOf "r.mu.Unlock()" < readerReceiveHeads.idxOf "return req.writer.receive(pck, r, req.link, req.write)" ∧
+    readerReceiveHeads.idxOf "r.writers = r.writers[1:]" < readerReceiveHeads.idxOf "r.mu.Unlock()" ∧
+    readerReceiveHeads.contains "return req.writer.receive(pck, r, req.link, req.write)" = true := by
+  decide
 
 /-- Only `write` (append), `Receive` (pop) and `Close` (hand over to the spawned goroutines, then nil) assign
 `Reader.writers` – the three steps of the model that change `pend`. (From Generated/Locks.) -/
@@ -434,15 +446,16 @@ theorem C01.packet_methods_as_modelled :
 theorem C01.receive_guards_as_modelled :
     receiveGuards = [("w.done", "return false"), ("index < 0 || w.links[index] != link", "return false"),
       ("head < 0", "return false")] ∧
-    receiveHeads = ["defer verifReceive(w, reader, pck, link)()", "w.mu.Lock()", "defer w.mu.Unlock()", "if w.done",
-      "index := w.indexOfReader(reader)", "if index < 0 || w.links[index] != link", "head := w.indexOfHead(index)",
+    receiveHeads = ["defer verifReceive(w, reader, pck, link, write)()", "w.mu.Lock()", "defer w.mu.Unlock()", "if w.done",
+      "index := w.indexOfReader(reader)", "if index < 0 || w.links[index] != link", "head := w.indexOfHead(index, write)",
       "if head < 0", "receives := w.receives[head]", "receives[index] = pck", "if head == 0", "return true"] := by
   decide
 
 theorem C01.unlink_flush_facts :
     unlinkFlushGuard = "r == reader" ∧
     unlinkFlushLoop = ⟨"for", "len(w.receives) > 0 && !slices.Contains(w.receives[0], nil)", "", false, false, false,
-      ["pck := joinAccepted(w.receives[0])", "w.receives = w.receives[1:]", "w.inbounds.Handle(pck)", "w.in <- pck"]⟩ ∧
+      ["pck := joinAccepted(w.receives[0])", "w.receives = w.receives[1:]", "w.writes = w.writes[1:]",
+       "w.inbounds.Handle(pck)", "w.in <- pck"]⟩ ∧
     unlinkFlushPop = ⟨0, 1, false, []⟩ := by
   decide
 
@@ -474,7 +487,7 @@ theorem C01.flush_loop_nonvacuous :
 `unlink` steps): their outlines are the ones transcribed. -/
 theorem C01.receive_outline_as_modelled :
     outline_Writer_receive = [
-      "defer verifReceive(w, reader, pck, link)()",
+      "defer verifReceive(w, reader, pck, link, write)()",
       "w.mu.Lock()",
       "defer w.mu.Unlock()",
       "if w.done",
@@ -482,7 +495,7 @@ theorem C01.receive_outline_as_modelled :
       "index := w.indexOfReader(reader)",
       "if index < 0 || w.links[index] != link",
       "  return false",
-      "head := w.indexOfHead(index)",
+      "head := w.indexOfHead(index, write)",
       "if head < 0",
       "  return false",
       "receives := w.receives[head]",
@@ -491,6 +504,7 @@ theorem C01.receive_outline_as_modelled :
       "  for len(w.receives) > 0 && !slices.Contains(w.receives[0], nil)",
       "    pck := joinAccepted(w.receives[0])",
       "    w.receives = w.receives[1:]",
+      "    w.writes = w.writes[1:]",
       "    w.inbounds.Handle(pck)",
       "    w.in <- pck",
       "return true"] ∧
@@ -501,7 +515,7 @@ theorem C01.receive_outline_as_modelled :
       "return -1"] ∧
     outline_Writer_indexOfHead = [
       "for i, receives := range w.receives",
-      "  if len(receives) <= index",
+      "  if w.writes[i] != write || len(receives) <= index",
       "    continue",
       "  if receives[index] == nil",
       "    return i",
@@ -536,6 +550,7 @@ theorem C01.link_unlink_outline_as_modelled :
       "    for len(w.receives) > 0 && !slices.Contains(w.receives[0], nil)",
       "      pck := joinAccepted(w.receives[0])",
       "      w.receives = w.receives[1:]",
+      "      w.writes = w.writes[1:]",
       "      w.inbounds.Handle(pck)",
       "      w.in <- pck",
       "    return true",
